@@ -1454,6 +1454,17 @@ class XMLSchemaBase(XsdValidator, ElementPathMixin[Union[SchemaType, XsdElement]
         if context.identities is not identities:
             for identity, counter in context.identities.items():
                 if identity in identities:
+                    if not isinstance(identity, XsdKeyref):
+                        # A value of the root element can duplicate a value of a chunk
+                        for fields in counter.counter:
+                            if counter.counter[fields] == 1 and \
+                                    identities[identity].counter[fields] == 1:
+                                msg = _("duplicated value {0!r} for {1!r}")
+                                yield context.validation_error(
+                                    validation, self,
+                                    XMLSchemaValueError(msg.format(fields, identity)),
+                                    resource.root
+                                )
                     identities[identity].counter.update(counter.counter)
                 else:
                     identities[identity] = counter
